@@ -1087,7 +1087,7 @@ Definition current_behaviour : behaviour :=
      b_feature_null_guard := true;    (* fixed in /repo (#14 ) *)
      b_delsource_by_id := true;       (* fixed in /repo: bec435c (new finding (C04)) *)
      b_valid_reachable := true;       (* fixed in /repo: 1b5d80a *)
-     b_setdata_type_first := true;    (* NOT fixed in /repo: notes/proposed-fixes/C08-1-setData-element-type-before-resize.patch *)
-     b_append_type_first := true;     (* NOT fixed in /repo: notes/proposed-fixes/C08-2-appendData-element-type-before-resize.patch *)
-     b_df_colname_check := true;      (* NOT fixed in /repo: notes/proposed-fixes/C08-3-createDataFrame-empty-column-name.patch *)
-     b_array_rank_max := true         (* NOT fixed in /repo: notes/proposed-fixes/C08-4-createDataArray-rank-above-32.patch *) |}.
+     b_setdata_type_first := true;    (* fixed in /repo: 13076e5 *)
+     b_append_type_first := true;    (* fixed in /repo: 333dc71 *)
+     b_df_colname_check := true;    (* fixed in /repo: 9dd5538 *)
+     b_array_rank_max := true        (* fixed in /repo: 65ab894 *) |}.
